@@ -211,9 +211,23 @@ class MaybeEncodingError(Exception):
     safely sent through the socket."""
 
     def __init__(self, exc, value):
-        self.exc = repr(exc)
-        self.value = repr(value)
+        self.exc = self._safe_repr(exc)
+        self.value = self._safe_repr(value)
         super().__init__(self.exc, self.value)
+
+    @staticmethod
+    def _safe_repr(obj):
+        # runs in the worker's error path: a failing repr() must not
+        # escape and kill the worker.
+        try:
+            return repr(obj)
+        except Exception:
+            return '<unrepresentable %s object>' % type(obj).__name__
+
+    def __reduce__(self):
+        # exc and value are already text: do not repr() them again on
+        # every unpickling.
+        return _rebuild_encoding_error, (self.exc, self.value)
 
     def __repr__(self):
         return "<%s: %s>" % (self.__class__.__name__, str(self))
@@ -221,6 +235,13 @@ class MaybeEncodingError(Exception):
     def __str__(self):
         return "Error sending result: '%r'. Reason: '%r'." % (
             self.value, self.exc)
+
+
+def _rebuild_encoding_error(exc, value):
+    obj = MaybeEncodingError.__new__(MaybeEncodingError)
+    obj.exc, obj.value = exc, value
+    Exception.__init__(obj, exc, value)
+    return obj
 
 
 class WorkersJoined(Exception):
